@@ -122,6 +122,11 @@ fn printed_close(a: &Profile, b: &Profile, tol: f64) -> Result<(), String> {
 pub fn check(bytes: &[u8], _ctx: &Ctx) -> Verdict {
     let case = decode(bytes);
     let info = &case.built.info;
+    // known finding F17 (reported by C15): the JSON reader refuses documents nested deeper than
+    // 128 objects; this check needs both encodings of the game
+    if cli::json_nesting(&case.built.tree) > 120 {
+        return Verdict::Discard("json-nesting-beyond-the-parser-limit-(known-finding-F17)");
+    }
     let game = match build_valid("C16", &case.built.tree) {
         Ok(g) => g,
         Err(v) => return v,
